@@ -608,7 +608,7 @@ class Mp4Atom(ObjectWithFields):
             uuid = str(binascii.b2a_hex(uuid_data), 'ascii')
             atom_type = f'UUID({uuid})'
         else:
-            atom_type = str(atom_type, 'ascii')
+            atom_type = str(atom_type, 'latin-1')
         return {
             "atom_type": atom_type,
             "position": position,
@@ -628,7 +628,7 @@ class Mp4Atom(ObjectWithFields):
             fourcc = b'uuid' + binascii.a2b_hex(self.atom_type[5:-1])
         else:
             assert len(self.atom_type) == 4
-            fourcc = bytes(self.atom_type, 'ascii')
+            fourcc = bytes(self.atom_type, 'latin-1')
         self.options.log.debug('%s: encode %s pos=%d', self._fullname,
                                self.classname(), self.position)
         if self._encoded is not None:
